@@ -219,6 +219,7 @@ func Check_Publish() {
 		before := sx.StubCount(fnUnmarshal)
 		sx.Assert(cons.DecodeAndPrintMsg(&sarama.ConsumerMessage{Topic: "flows", Value: payload}) == nil, "consumer-rejects-payload")
 		sx.Assert(sx.StubCount(fnUnmarshal) == before+1, "consumer-unmarshal-call")
+		sx.Assert(!sx.StubArg(fnUnmarshal, before, 2).(bool), "consumer-merges-into-a-stale-message")
 		got := sx.StubArg(fnUnmarshal, before, 0).([]byte)
 		sx.Assert(sx.EqBytes(got, payload[4:]), "consumer-decodes-other-bytes-than-were-marshalled")
 	}
